@@ -579,6 +579,11 @@ StartTLS(v) ==
   LET cmd == Cmd("STARTTLS", v) IN
   /\ InCmdMode /\ "starttls" \in Alphabet
   /\ IF st.tls \/ ~cfg.tlsAvail THEN v = "ok" /\ Just(cmd, R(502, <<5, 5, 1>>))
+     ELSE IF v = "badhs" THEN
+          \* what follows the 220 is not a TLS handshake: 550, and the connection
+          \* goes on exactly as it was - in plaintext, nothing forgotten, nothing gained
+          /\ st' = st
+          /\ Emit(cmd, <<R(220, <<2, 0, 0>>), R(550, <<5, 0, 0>>)>>, <<>>)
      ELSE /\ st' = [Cleared(st) EXCEPT !.tls = TRUE, !.helo = FALSE, !.sess = 0,
                                        !.didAuth = FALSE]
           \* Logout instead of Reset: the session object is dropped
@@ -605,7 +610,7 @@ Next ==
   \/ AuthNoArg
   \/ \E v \in {"badir", "unkmech"} : AuthBad(v)
   \/ \E v \in {"bytes", "empty", "emptyline", "cancel", "bad"} : AuthLine(v)
-  \/ \E v \in {"ok", "inject"} : StartTLS(v)
+  \/ \E v \in {"ok", "inject", "badhs"} : StartTLS(v)
 
 Spec == Init /\ [][Next]_vars
 
@@ -674,7 +679,7 @@ C03_TxnEnd ==
 
 \* STARTTLS ends the session with Logout, not Reset, and forgets everything.
 C10_StartTLS ==
-  [][ (last'.cmd.c = "STARTTLS" /\ last'.replies[1].code = 220) =>
+  [][ (last'.cmd.c = "STARTTLS" /\ last'.cmd.a # "badhs" /\ last'.replies[1].code = 220) =>
         /\ ~HasCb(last'.cbs, "Reset")
         /\ (st.sess # 0 => HasCb(last'.cbs, "Logout"))
         /\ st'.tls /\ ~st'.helo /\ ~st'.didAuth /\ st'.sess = 0 /\ ~st'.from /\ st'.nrcpt = 0
@@ -690,6 +695,7 @@ ReplyCountOK(l, preSt) ==
   LET n == Len(l.replies) IN
   CASE l.cmd.c \in {"EOF", "AFTER"} -> n = 0
     [] l.cmd.c = "IDLE" /\ l.cmd.a = "auth" -> n = 0     \* (as the code is, see AuthIdle)
+    [] l.cmd.c = "STARTTLS" /\ l.cmd.a = "badhs" -> n \in {1, 2}   \* 220 then the handshake failure
     [] l.cmd.c = "DATA" /\ l.cmd.p = "all-panic" -> n >= 2
     [] l.cmd.c = "DATA" /\ n > 1 -> n = 1 + (IF cfg.lmtp THEN preSt.nrcpt ELSE 1)
     [] l.cmd.c = "BDAT" /\ l.cmd.l /\ l.cmd.a = "" /\ l.replies[1].code \in {250, 554, 421} ->
@@ -745,7 +751,9 @@ C09_AtMostOnce ==
 C09_FailLeavesUnauth ==
   [][ (last'.cmd.c \in {"AUTH", "ARESP"} /\ last'.replies[1].code \notin {235, 334})
         => (st'.didAuth = st.didAuth /\ st'.authLeft = 0) ]_vars
-C09_ErasedByStartTLS == [][ (last'.cmd.c = "STARTTLS" /\ last'.replies[1].code = 220) => ~st'.didAuth ]_vars
+C09_ErasedByStartTLS == [][ (last'.cmd.c = "STARTTLS" /\ last'.cmd.a # "badhs" /\ last'.replies[1].code = 220) => ~st'.didAuth ]_vars
+\* a failed upgrade changes nothing: in particular it does not make the connection count as protected
+C09_FailedUpgradeChangesNothing == [][ (last'.cmd.c = "STARTTLS" /\ last'.cmd.a = "badhs") => st' = st ]_vars
 
 \* C19: error flood closes the connection
 C19_ErrFlood == st.errCount <= MaxErr
